@@ -3081,6 +3081,7 @@ def c10(ctx):
             return True
         return {"named-same": "named-same", "named-other": "named-other", "dot": "dot", "blank": "blank"}[pf] == ff
     cases, exp = [], {}
+    extra_bodies = []
     k = 0
     for pf, pspec in pforms.items():
         for ff, fspec in fforms.items():
@@ -3099,6 +3100,12 @@ def c10(ctx):
                             head += "\n"
                         meta = "var nm identifier\n" if pf == "metavar" else ""
                         patch = "@@\nvar x expression\n" + meta + "@@\n" + head + "-foo(x)\n+bar(x)\n"
+                        if sign == " " and layout == "single":
+                            # the same guards in front of other shapes of change: an expression replaced by a statement or by
+                            # several, a statement by a statement (the two sides are reconciled when the patch is parsed)
+                            for bi, body in enumerate(("-foo(x)\n+if err := bar(x); err != nil {\n+\treturn\n+}\n", "-foo(x)\n+bar(x)\n+baz(x)\n",
+                                                       "-v := foo(x)\n+v := bar(x)\n", "-foo(x)\n+go bar(x)\n")):
+                                extra_bodies.append((pf, ff, pk, layout, sign, fspec, "@@\nvar x expression\n" + meta + "@@\n" + head + body, bi))
                         imports = []
                         if fspec:
                             imports.append(fspec)
@@ -3115,6 +3122,14 @@ def c10(ctx):
                         k += 1
                         cases.append({"id": cid, "patches": [patch], "src": src})
                         exp[cid] = (expect(pf, ff) and pk != "other", f"patch import {pf}, file import {ff}, package clause {pk}, {layout}, sign '{sign}'")
+                        while extra_bodies:
+                            pf2, ff2, pk2, lay2, sg2, fs2, ptxt, bi = extra_bodies.pop()
+                            src2 = "package a\n\n" + imp + "func f() {\n\tfoo(1)\n\tv := foo(3)\n\t_ = v\n}\n"
+                            cid = f"x{k}"
+                            k += 1
+                            cases.append({"id": cid, "patches": [ptxt], "src": src2})
+                            exp[cid] = (expect(pf2, ff2) and pk2 != "other",
+                                        f"patch import {pf2}, file import {ff2}, package clause {pk2}, {lay2}, sign '{sg2}', body shape {bi}")
     d = ctx.scratch("c10")
     pth = os.path.join(d, "in.jsonl")
     with open(pth, "w") as f:
